@@ -1324,7 +1324,7 @@ Definition BI (s : bst) : Prop :=
   NoDup (b_sub s) /\
   (forall op, In (LEnq op) (b_log s) -> In (IEnq op) (b_exec s)) /\
   (forall op, In (IEnq op) (b_exec s) -> In op (b_out s) \/ In (LDone op) (b_log s)) /\
-  b_wake s = 0%nat /\
+  ((b_wake s <= 1)%nat /\ (b_wake s = 1%nat -> b_out s = [] /\ b_notifs s <> [] /\ b_fired s = [])) /\
   (length (b_notifs s ++ b_fired s) = b_susp s /\ (b_susp s <= 1)%nat) /\
   (forall id, In id (b_notifs s ++ b_fired s) -> exists pre, b_exec s = pre ++ [IBar id]) /\
   (b_fired s <> [] -> b_out s = []).
@@ -1341,36 +1341,40 @@ Proof.
   - destruct (Z.eqb_spec h y); auto. right. auto.
 Qed.
 
-Lemma step_BI s e : BI s -> bsub_ok s e -> BI (bstep true s e).
+Lemma step_BI a s e : BI s -> bsub_ok s e -> BI (bstep a s e).
 Proof.
-  intros I Hok. pose proof I as (ND & L1 & L2 & W & (P1 & P2) & P3 & F).
+  intros I Hok. pose proof I as (ND & L1 & L2 & (W1 & W2) & (P1 & P2) & P3 & F).
   destruct e as [i| |op| |id]; cbn [bstep].
-  - (* submit *) unfold BI, b_sub in *. cbn. repeat split; auto.
+  - (* submit *) unfold BI, b_sub in *. cbn. repeat split; auto; try (apply W2; auto).
     rewrite app_assoc. apply NoDup_snoc; auto.
   - (* the barrier queue runs a block *)
     destruct (b_susp s) eqn:S; [|exact I].
     destruct (b_notifs s) as [|n0 nt] eqn:N; [|cbn in P1; discriminate].
     destruct (b_fired s) as [|f0 ft] eqn:Fi; [|cbn in P1; discriminate].
+    assert (Wz : b_wake s = 0%nat).
+    { destruct (b_wake s) as [|[|w]] eqn:E; auto; [|lia]. destruct (W2 eq_refl) as (_ & X & _). now contradiction X. }
     destruct (b_q s) as [|[op|id] rest] eqn:Q.
     + exact I.
-    + unfold BI, b_sub in *. cbn. rewrite Q in ND. repeat split; auto; try lia;
+    + unfold BI, b_sub in *. cbn. rewrite Q in ND. rewrite Wz. repeat split; auto; try lia; try discriminate;
         try (now rewrite <- app_assoc); try (intros ? []; fail); try (intros X; now contradiction X).
       * intros o H. apply in_app_or in H. apply in_or_app. destruct H as [H|[H|[]]]; [left; auto|inversion H; subst; right; now left].
       * intros o H. apply in_app_or in H. destruct H as [H|[H|[]]].
         -- destruct (L2 o H); [left; apply in_or_app; now left | right; apply in_or_app; now left].
         -- inversion H; subst. left. apply in_or_app. right. now left.
     + unfold BI, b_sub in *. rewrite Q in ND.
-      destruct (b_out s) as [|o0 ot] eqn:O; cbn; rewrite ?N, ?Fi; cbn; repeat split; auto; try lia;
+      destruct (b_out s) as [|o0 ot] eqn:O; cbn; rewrite ?Wz; cbn; repeat split; auto; try lia; try discriminate;
         try (now rewrite <- app_assoc);
         try (intros o H; apply in_or_app; left; auto; fail);
         try (intros o H; apply in_app_or in H; destruct H as [H|[H|[]]]; [rewrite ?O in *; now apply L2|discriminate]);
         try (intros x [<-|[]]; eauto);
-        try (intros X; now contradiction X); try discriminate.
+        try (intros X; now contradiction X).
   - (* dispatch_group_leave *)
     destruct (zmem op (b_out s)) eqn:M; [|exact I].
     apply zmem_In in M.
     assert (Fi : b_fired s = []).
     { destruct (b_fired s) eqn:E; auto. rewrite F in M by discriminate. contradiction. }
+    assert (Wz : b_wake s = 0%nat).
+    { destruct (b_wake s) as [|[|w]] eqn:E; auto; [|lia]. destruct (W2 eq_refl) as (X & _). rewrite X in M. contradiction. }
     assert (K : forall o, In (IEnq o) (b_exec s) -> In o (zremove op (b_out s)) \/ In (LDone o) (b_log s ++ [LDone op])).
     { intros o H. destruct (L2 o H) as [H1|H1].
       - destruct (Z.eq_dec o op) as [->|NE]; [right; apply in_or_app; right; now left|left; now apply zremove_other].
@@ -1378,28 +1382,41 @@ Proof.
     assert (L1' : forall o, In (LEnq o) (b_log s ++ [LDone op]) -> In (IEnq o) (b_exec s)).
     { intros o H. apply in_app_or in H. destruct H as [H|[H|[]]]; auto. discriminate. }
     destruct (zremove op (b_out s)) as [|r0 rt] eqn:R.
-    + unfold BI, b_sub in *. cbn. rewrite Fi in *. cbn. rewrite ?app_nil_r in *. repeat split; auto;
-      try (intros o H; destruct (K o H) as [[]|H1]; auto).
-    + unfold BI, b_sub in *. cbn. rewrite Fi in *. repeat split; auto; try (intros X; now contradiction X).
-  - (* wake: never pending with an atomic leave *) rewrite W. exact I.
+    + assert (K0 : forall o, In (IEnq o) (b_exec s) -> In o [] \/ In (LDone o) (b_log s ++ [LDone op])) by exact K.
+      destruct a; [|destruct (b_notifs s) as [|n0 nt] eqn:N];
+        unfold BI, b_sub in *; cbn; rewrite ?Fi, ?Wz in *; cbn; rewrite ?app_nil_r in *;
+        (repeat split; auto; try lia; try discriminate; try (intros X; now contradiction X)).
+    + unfold BI, b_sub in *. cbn. rewrite Fi, Wz in *. repeat split; auto; try lia; try discriminate;
+        try (intros X; now contradiction X).
+  - (* the detaching step of a leave that observed zero *)
+    destruct (b_wake s) as [|w] eqn:E; [exact I|].
+    assert (w = 0%nat) by lia. subst w.
+    destruct (W2 eq_refl) as (O & Nn & Fi).
+    unfold BI, b_sub in *. cbn. rewrite Fi, O in *. cbn in *. rewrite app_nil_r in *.
+    repeat split; auto; try lia; try discriminate.
   - (* the barrier block *)
     destruct (zmem id (b_fired s)) eqn:M; [|exact I].
     apply zmem_In in M.
+    assert (Wz : b_wake s = 0%nat).
+    { destruct (b_wake s) as [|[|w]] eqn:E; auto; [|lia]. destruct (W2 eq_refl) as (_ & _ & X). rewrite X in M. contradiction. }
     assert (Sh : b_notifs s = [] /\ b_fired s = [id] /\ b_susp s = 1%nat).
     { destruct (b_notifs s) as [|n0 nt]; destruct (b_fired s) as [|f0 ft]; cbn in *; try contradiction.
       - destruct ft; cbn in *; [|lia]. destruct M as [->|[]]. auto.
       - rewrite app_length in P1. cbn in P1. lia. }
     destruct Sh as (N & Fi & S).
-    unfold BI, b_sub in *. cbn. rewrite N, Fi, S in *. cbn. rewrite Z.eqb_refl. cbn. repeat split; auto;
-      try (intros ? []; fail); try (intros X; now contradiction X).
+    unfold BI, b_sub in *. cbn. rewrite N, Fi, S, Wz in *. cbn. rewrite Z.eqb_refl. cbn. repeat split; auto; try lia;
+      try discriminate; try (intros ? []; fail); try (intros X; now contradiction X).
     + intros o H. apply in_app_or in H. destruct H as [H|[H|[]]]; auto. discriminate.
     + intros o H. destruct (L2 o H); auto. right. apply in_or_app. now left.
 Qed.
 
-Lemma run_BI evs : forall s, BI s -> brun_ok true s evs -> BI (brun true s evs).
+Lemma run_BI a evs : forall s, BI s -> brun_ok a s evs -> BI (brun a s evs).
 Proof. induction evs as [|e t IH]; intros s I H; simpl; auto. destruct H. apply IH; auto. now apply step_BI. Qed.
 Lemma BI_init : BI b_init.
-Proof. unfold BI, b_init, b_sub. cbn. repeat split; auto; try constructor; try contradiction; intros; contradiction. Qed.
+Proof.
+  unfold BI, b_init, b_sub. cbn. repeat split; auto; try constructor; try contradiction; try discriminate;
+    intros; contradiction.
+Qed.
 
 Lemma NoDup_app_disj {A} (a b : list A) x : NoDup (a ++ b) -> In x a -> In x b -> False.
 Proof.
@@ -1408,20 +1425,26 @@ Proof.
   - eauto.
 Qed.
 
-(* with a group whose notifications run only at count zero (atomic leave: the ideal group of the C07 statements), in
-   every reachable state in which a barrier block has been submitted (it runs at the next BBlock, which appends LBar to
-   the log): every operation submitted before the barrier has been enqueued AND disposed (its LDone, hence all of its
-   I/O, is already in the log), and nothing submitted after the barrier has even been enqueued (no LEnq, hence no I/O) *)
-Theorem barrier_between_ideal_group : forall evs id,
-  brun_ok true b_init evs ->
-  let s := brun true b_init evs in
+(* the barrier clause, for the group as coded (a = false: the leave that observed zero with HAS_NOTIFS detaches the
+   notify list in a later step) and for the ideal group (a = true), for every interleaving of submissions, barrier
+   queue steps, operation completions and block executions: in every reachable state in which a barrier block has been
+   submitted (it runs at the next BBlock, which appends LBar to the log) every operation submitted before the barrier has
+   been enqueued AND disposed (its LDone, hence all of its I/O, is already in the log), and nothing submitted after the
+   barrier has even been enqueued (no LEnq, hence no I/O).  Queue facts used as the semantics of the model: the channel
+   queue and the barrier queue are FIFO (C02), a suspended queue runs nothing until resumed (C06); group facts used:
+   enter/leave count outstanding operations and dispatch_group_notify submits at once at count zero (C07_value_is_
+   outstanding, C07_notify_exactly_once); C07's notify-early race needs an enter between a leave's add and its detach,
+   which cannot happen here because every enter runs on the barrier queue that the registered barrier keeps suspended *)
+Theorem barrier_between : forall a evs id,
+  brun_ok a b_init evs ->
+  let s := brun a b_init evs in
   In id (b_fired s) ->
   exists pre, b_sub s = pre ++ [IBar id] ++ b_q s /\
     (forall op, In (IEnq op) pre -> In (LDone op) (b_log s)) /\
     (forall op, In (IEnq op) (b_q s) -> ~ In (LEnq op) (b_log s)) /\
     b_out s = [].
 Proof.
-  intros evs id Hok s Hf.
+  intros a evs id Hok s Hf.
   assert (I : BI s) by (apply run_BI; auto; apply BI_init).
   destruct I as (ND & L1 & L2 & W & (P1 & P2) & P3 & F).
   assert (O : b_out s = []) by (apply F; intros X; rewrite X in Hf; contradiction).
@@ -1432,6 +1455,37 @@ Proof.
     + apply in_or_app. now left.
     + rewrite O in H1. contradiction.
   - intros op H X. apply L1 in X. eapply NoDup_app_disj; eauto.
+Qed.
+
+(* a registered barrier is eventually submitted: when the last outstanding operation leaves, the notification is
+   submitted at that step (ideal group) or a detaching step is pending (group as coded); nothing else can run meanwhile *)
+Theorem barrier_not_stranded : forall a evs,
+  brun_ok a b_init evs ->
+  let s := brun a b_init evs in
+  b_notifs s <> [] -> b_out s <> [] \/ b_wake s = 1%nat.
+Proof.
+  intros a evs Hok s Hn. destruct (b_out s) eqn:O; [|left; discriminate]. right.
+  revert s Hn O. 
+  assert (G : forall evs s0, BI s0 -> (b_notifs s0 <> [] -> b_out s0 = [] -> b_wake s0 = 1%nat) -> brun_ok a s0 evs ->
+              let s := brun a s0 evs in b_notifs s <> [] -> b_out s = [] -> b_wake s = 1%nat).
+  { clear. induction evs as [|e t IH]; intros s0 I H0 Hok; cbn; auto.
+    destruct Hok as [Ok1 Ok2]. apply IH; auto; [now apply step_BI|].
+    pose proof I as (ND & L1 & L2 & (W1 & W2) & (P1 & P2) & P3 & F).
+    destruct e as [i| |op| |id]; cbn [bstep]; auto.
+    - destruct (b_susp s0) eqn:S; auto.
+      destruct (b_notifs s0) as [|n0 nt] eqn:N; [|cbn in P1; discriminate].
+      destruct (b_q s0) as [|[op|id] rest]; auto.
+      destruct (b_out s0) eqn:O; cbn; rewrite ?N; cbn; [intros X; now contradiction X|discriminate].
+    - destruct (zmem op (b_out s0)) eqn:M; auto.
+      destruct (zremove op (b_out s0)) eqn:R; [|cbn; discriminate].
+      destruct a; cbn; [intros X; now contradiction X|].
+      destruct (b_notifs s0) eqn:N; cbn; [intros X; now contradiction X|].
+      intros _ _. assert (Wz : b_wake s0 = 0%nat).
+      { apply zmem_In in M. destruct (b_wake s0) as [|[|w]] eqn:E; auto; [|lia]. destruct (W2 eq_refl) as (X & _). rewrite X in M. contradiction. }
+      now rewrite Wz.
+    - destruct (b_wake s0) eqn:E; [intros A B; specialize (H0 A B); congruence|]. cbn. intros X. now contradiction X.
+    - destruct (zmem id (b_fired s0)) eqn:M; auto. }
+  intros s Hn O. apply (G evs b_init); auto. apply BI_init. intros X. now contradiction X.
 Qed.
 
 (* the log only grows, so what holds when the barrier block is submitted still holds when it runs *)
@@ -1448,13 +1502,4 @@ Proof.
   - destruct (zmem id (b_fired s)); [eexists; reflexivity|exists []; now rewrite app_nil_r].
 Qed.
 
-(* with the group as coded (the leave that observed zero detaches the notify list in a later step: C07 notify-early),
-   the clause does not follow: operation 1 completes, its leave is held after the atomic add; operation 2 is submitted
-   and enqueued (enter), barrier 7 is submitted and registers its notification; the held leave resumes and submits it:
-   the barrier block runs while operation 2, submitted before it, is still outstanding *)
-Theorem barrier_between_refuted_with_coded_group :
-  let evs := [BSubmit (IEnq 1); BRun; BLeave 1; BSubmit (IEnq 2); BSubmit (IBar 7); BRun; BRun; BWake; BBlock 7] in
-  brun_ok false b_init evs /\
-  let s := brun false b_init evs in
-  b_log s = [LEnq 1; LDone 1; LEnq 2; LBar 7] /\ b_out s = [2] /\ b_sub s = [IEnq 1; IEnq 2; IBar 7].
-Proof. vm_compute. repeat split; auto; intuition discriminate. Qed.
+
